@@ -72,8 +72,9 @@ def _parent_call_after(ctx, func, graph, start, method, arg=None,
         for call in C.node_calls(node):
             if K.is_meth(call, method) and \
                     (K.recv_text(call) or '').endswith('parent'):
+                accepted = (arg,) if isinstance(arg, str) else arg
                 if arg is None or (call.args and
-                                   N.txt(call.args[0]) == arg):
+                                   N.txt(call.args[0]) in accepted):
                     return True
         return False
 
@@ -86,7 +87,8 @@ def _parent_call_after(ctx, func, graph, start, method, arg=None,
                        cut_edge=no_parent, follow_exc=False)
     ctx.ob(rule, func, start, path is None,
            what or 'followed on every path by parent.%s(%s)' % (
-               method, arg or '...'),
+               method, (arg if isinstance(arg, str) else
+                        (arg or ['...'])[0]) or '...'),
            path=K.describe(path) if path else None,
            construct='%s => parent.%s' % (start.text(70), method))
 
@@ -116,12 +118,13 @@ def _aggregates(ctx):
     for node in graph.nodes:
         if node.kind == 'stmt' and isinstance(node.ast, ast.Assign) and \
                 N.txt(node.ast.targets[0]) == 'self.free_capacity':
-            good = _is_max_of(node.ast.value, 'self.free_capacity',
-                              up.params()[1])
+            good = _is_max_of(K.rexpr(up, node.ast.value),
+                              'self.free_capacity', up.params()[1])
             ctx.ob('C02.1', up, node, good,
                    'aggregate raised with the component-wise maximum')
             _parent_call_after(ctx, up, graph, node, up.name,
-                               'self.free_capacity')
+                               ('self.free_capacity',
+                                N.txt(node.ast.value)))
 
     # adjust-down: recomputation over exactly the up children
     graph = ctx.cfg(down)
@@ -351,60 +354,104 @@ def _must_call_all(ctx, func, wanted, what):
 
 
 def _shortcut(ctx, down, nz):
+    """A 'shortcut' is an exit of the recomputation routine that neither
+    recomputed the aggregate (passed the child loop) nor re-assigned it."""
     graph = ctx.cfg(down)
-    facts = N.must_facts(graph, nz)
     prev = down.params()[1] if len(down.params()) > 1 else None
     ctx.require(prev, 'previous-capacity parameter of %s' % down.qualname)
-    n_short = 0
-    for node in graph.nodes:
-        if node.kind != 'return':
-            continue
-        # a return that happens before any recomputation
-        n_short += 1
-        good = [f for f in facts[node] if f.kind == 'vec' and
-                f.key[1] == 'ALL' and f.key[2] == '<' and
-                f.key[3] == prev and f.key[4] == 'self.free_capacity']
-        ctx.ob('C02.2', down, node, bool(good),
-               'shortcut only under ALL(%s < self.free_capacity); facts: %s'
-               % (prev, sorted(N.show(f) for f in facts[node])))
-    ctx.require(n_short >= 1, 'shortcut return in %s' % down.qualname)
+    loops = [n for n in graph.nodes if n.kind == 'for']
+    stores = [n for n in graph.nodes if any(
+        N.txt(t) == 'self.free_capacity'
+        for t, _v, _k in K.assigns_attr(n))]
+
+    def sound(atom):
+        return atom.kind == 'vec' and atom.key[1] == 'ALL' and \
+            atom.key[2] == '<' and atom.key[3] == prev and \
+            atom.key[4] == 'self.free_capacity'
+    # nodes reachable from entry without recomputing / re-assigning
+    early = K.cut_reach(graph, graph.entry,
+                        cut_node=lambda n: n in loops or n in stores,
+                        follow_exc=False)
+    exits = [n for n in early if n.kind == 'return']
+    if graph.exit in early:
+        exits += [e.src for e in graph.exit.pred
+                  if e.src in early and e.src.kind != 'return' and
+                  e.kind != 'exc']
+    ctx.require(exits, 'shortcut exit in %s' % down.qualname)
+    for node in exits:
+        ok = K.guarded_by_atoms(ctx, down, graph, node, sound, nz,
+                                follow_exc=False)
+        if not ok:
+            # an exit may still be reached only after recomputation on
+            # other paths; what matters is the early path
+            path = K.find_path(
+                graph.entry, [node],
+                cut_node=lambda n: n in loops or n in stores,
+                cut_edge=lambda e: K.edge_establishes(ctx, down, nz, e,
+                                                      sound),
+                follow_exc=False)
+            ok = path is None
+        ctx.ob('C02.2', down, node, ok,
+               'the aggregate is left untouched without recomputation only '
+               'under ALL(%s < self.free_capacity)' % prev,
+               construct='shortcut exit [%s]' % K.controlling(node, graph))
 
 
 def _memo(ctx, nz):
     tracker = ctx.index.get_class(K.SCHED, 'PlacementFeasibilityTracker')
     count = 0
+
+    def dominated(atom):
+        return atom.kind == 'vec' and atom.key[1] == 'ALL' and \
+            atom.key[2] == '<=' and 'recorder' in atom.key[3] and \
+            atom.key[4].endswith('demand')
+
+    def smaller_or_new(atom):
+        if atom.kind == 'vec' and atom.key[1] == 'ALL' and \
+                atom.key[2] == '<=' and atom.key[3].endswith('demand') and \
+                'recorder' in atom.key[4]:
+            return True
+        return atom.key[0] == 'in' and not atom.key[3] and \
+            'recorder' in atom.key[2]
     for func in tracker.live_methods():
         graph = ctx.cfg(func)
-        facts = N.must_facts(graph, nz)
+        env = K.func_env(func)
+        nzf = N.Normaliser(nz.helpers, env=env)
         for node in graph.nodes:
-            if node.kind == 'return' and isinstance(
-                    node.ast.value, ast.Constant) and \
-                    node.ast.value.value is False:
-                count += 1
-                good = [f for f in facts[node] if f.kind == 'vec' and
-                        f.key[1] == 'ALL' and f.key[2] == '<=' and
-                        'recorder' in f.key[3] and
-                        f.key[4].endswith('demand')]
-                ctx.ob('C02.3', func, node, bool(good),
-                       "'not feasible' only under ALL(demand >= recorded); "
-                       'facts: %s' % sorted(N.show(f) for f in facts[node]))
+            if node.kind == 'return':
+                val = node.ast.value
+                if isinstance(val, ast.Constant) and val.value is False:
+                    count += 1
+                    ctx.ob('C02.3', func, node, K.guarded_by_atoms(
+                        ctx, func, graph, node, dominated, nz),
+                           "'not feasible' only under ALL(demand >= "
+                           'recorded)')
+                elif val is not None and not isinstance(val, ast.Constant):
+                    atoms = K._outcome_atoms(nzf, val, False)
+                    if not any(a.kind == 'vec' for a in atoms) and not \
+                            any(a.kind == 'vec' for a in
+                                K._outcome_atoms(nzf, val, True)):
+                        continue
+                    count += 1
+                    ok = any(dominated(a) for a in atoms) or \
+                        K.guarded_by_atoms(ctx, func, graph, node,
+                                           dominated, nz)
+                    ctx.ob('C02.3', func, node, ok,
+                           "a falsy answer ('not feasible') implies "
+                           'ALL(demand >= recorded): %s' % [
+                               N.show(a) for a in atoms])
             if node.kind == 'stmt' and isinstance(node.ast, ast.Assign) \
                     and isinstance(node.ast.targets[0], ast.Subscript) and \
                     'recorder' in N.txt(node.ast.targets[0].value):
                 count += 1
-                first = [f for f in facts[node] if f.key[0] == 'in' and
-                         not f.key[3] and 'recorder' in f.key[2]]
-                smaller = [f for f in facts[node] if f.kind == 'vec' and
-                           f.key[1] == 'ALL' and f.key[2] == '<=' and
-                           f.key[3].endswith('demand') and
-                           'recorder' in f.key[4]]
                 plain = isinstance(node.ast.value, ast.Name)
-                ctx.ob('C02.3', func, node, plain and bool(first or smaller),
+                ok = K.guarded_by_atoms(ctx, func, graph, node,
+                                        smaller_or_new, nz)
+                ctx.ob('C02.3', func, node, plain and ok,
                        'record written for a new key, or replaced only '
                        'under ALL(demand <= recorded), by the demand '
-                       'itself; facts: %s' % sorted(
-                           N.show(f) for f in facts[node]))
-    ctx.require(count >= 3, 'memo decisions of the feasibility tracker')
+                       'itself')
+    ctx.require(count >= 2, 'memo decisions of the feasibility tracker')
     return tracker
 
 
